@@ -257,6 +257,7 @@ def length_guard(ctx, kind: str) -> None:
                     sides = [(v.left, v.right), (v.right, v.left)]
                     by_construction = None
                     for ln, other in sides:
+                        ln = fv.res.resolve(ln, d) if isinstance(ln, ast.Name) else ln
                         if call_fname(ln) == "len" and ln.args and same_seq(fv.res.resolve(ln.args[0], d), wl[0]):
                             if isinstance(other, ast.List):
                                 by_construction = len(other.elts) == 1
